@@ -213,6 +213,20 @@ pub fn oracle_scan(d: &[u8]) -> String {
             (None, None) => true,
             _ => false,
         };
+    // C13: every attribute of the delivered frame is that of its own bytes parsed alone (nothing the scanner
+    // saw before or after it may leak in)
+    if let Some(f) = &gf {
+        let own = f.frame_data().to_vec();
+        let alone = match MessageFrame::new(&own) { Ok(g) => attrs(&g), Err(e) => format!("ERR {:?}", e) };
+        if attrs(f) != alone {
+            return format!("FAIL C13 delivered frame reports {} but its own bytes alone give {}", attrs(f).chars().take(60).collect::<String>(), alone.chars().take(60).collect::<String>());
+        }
+        let m1 = format!("{:?}", f.get_message());
+        let m2 = MessageFrame::new(&own).map(|g| format!("{:?}", g.get_message())).unwrap_or_default();
+        if m1 != m2 {
+            return "FAIL C13 delivered frame decodes differently from its own bytes alone".into();
+        }
+    }
     if ok {
         "PASS".into()
     } else {
@@ -240,6 +254,11 @@ pub fn oracle_iter(d: &[u8]) -> String {
     let mut guard = 0usize;
     for f in &mut it {
         got.push(f.frame_data().to_vec());
+        let own = f.frame_data().to_vec();
+        let alone = match MessageFrame::new(&own) { Ok(g) => attrs(&g), Err(e) => format!("ERR {:?}", e) };
+        if attrs(&f) != alone {
+            return format!("FAIL C13 iterated frame reports {} but its own bytes alone give {}", attrs(&f).chars().take(60).collect::<String>(), alone.chars().take(60).collect::<String>());
+        }
         guard += 1;
         if guard > d.len() + 1 {
             return "FAIL iterator does not terminate".into();
